@@ -220,6 +220,8 @@ def desc(carrier, dtype, m):
     # ... mixed with names that share a long prefix
     texts = [tricky[(i // 4) * 2 + i % 2] if i % 4 < 2 and (i // 4) * 2 + i % 2 < len(tricky) else "state %d" % i
              for i in range(m)]
+    if m >= 4:
+        texts[3] = ""               # an empty description is a description too
 
     def setup(v):
         for k, t in zip(keys, texts):
